@@ -144,7 +144,7 @@ def seed(ctx):
         ctx.check(sym.is_global() and not sym.is_local() and not sym.is_parameter(), mod.funcs.get(sc.get_name(), mod.tree.body[0]),
                   "in scope %s the name `hash` resolves to the module-level digest" % sc.get_name(), "in scope %s the name `hash` is rebound locally" % sc.get_name(),
                   key="%s::%s::resolution of hash" % (HS, sc.get_name()))
-    ctx.floor(n, 2, "scopes calling hash() inside hashing.py")
+    ctx.floor(n, 1, "scopes calling hash() inside hashing.py")
     # nothing else seed/identity dependent in the hasher classes
     banned = {"id", "repr", "builtins.hash", "object.__hash__", "random.random", "os.urandom", "time.time"}
     n_calls = 0
@@ -261,7 +261,47 @@ def no_collapse(ctx):
                       "method %s is not a scalar/sequence saver override" % m.name, "Hasher overrides %s: values of a builtin type may be mapped to one representation" % m.name)
 
 
+def pure(ctx):
+    """joblib.hash is a pure function of the value: no state survives from one digest to the next
+    (a memo keyed by ==/hash() merges 1, 1.0 and True, and makes later digests depend on earlier ones)."""
+    mod = ctx.repo.mod(HS)
+    n_funcs = 0
+    for q, fn in mod.funcs.items():
+        n_funcs += 1
+        for d in fn.decorator_list:
+            dn = dotted(d.func) if isinstance(d, ast.Call) else dotted(d)
+            ctx.check(dn not in ("functools.lru_cache", "lru_cache", "functools.cache", "cache"), fn, "%s is not memoised" % q,
+                      "%s is memoised with %s: arguments that compare equal (1, 1.0, True; nested values are never type-checked) share one digest, and digests depend on the call history" % (q, dn))
+    containers = {}
+    for st in mod.tree.body:
+        if isinstance(st, ast.Assign):
+            v = st.value
+            is_cont = isinstance(v, (ast.Dict, ast.List, ast.Set)) or (isinstance(v, ast.Call) and call_name(v) in ("dict", "list", "set", "collections.OrderedDict", "weakref.WeakKeyDictionary", "weakref.WeakValueDictionary", "collections.defaultdict"))
+            if is_cont:
+                for t in stores_to(st):
+                    containers[t] = st
+    for q, fn in mod.funcs.items():
+        for n in ast.walk(fn):
+            hit = None
+            if isinstance(n, ast.Subscript) and isinstance(n.ctx, (ast.Store, ast.Del)) and dotted(n.value) in containers:
+                hit = dotted(n.value)
+            if isinstance(n, ast.Call) and isinstance(n.func, ast.Attribute) and dotted(n.func.value) in containers and n.func.attr in ("setdefault", "update", "append", "add", "clear", "pop", "insert", "extend"):
+                hit = dotted(n.func.value)
+            if hit:
+                ctx.bad(n, "%s mutates the module-level container %s: digests are remembered across calls of joblib.hash (keyed by ==/hash(), and regardless of hash_name), so the "
+                        "result depends on what was hashed before" % (q, hit))
+    ctx.ok(mod.tree.body[0], "%d functions of hashing.py scanned: no memoisation decorator, no module-level container written by a function" % n_funcs, key=HS + "::<module>::no state across digests")
+    cls = mod.classes.get("Hasher")
+    init = ctx.res.method(HS, cls, "__init__")
+    st = assigns_to(init, "self.stream")
+    ctx.check(bool(st) and unparse(st[0].value) == "io.BytesIO()", st[0] if st else init, "every Hasher starts from an empty stream")
+    top = ctx.repo.func(HS, "hash")
+    hc = [c for c in calls_in(top) if call_name(c) in ("Hasher", "NumpyHasher")]
+    ctx.check(bool(hc), top, "every call of hash() builds a fresh Hasher")
+
+
 def run(ctx):
+    ctx.run("C08.PURE", "R-WHO", pure)
     ctx.run("C08.UNORDERED", "R-TABLE", unordered)
     ctx.run("C08.SEED", "R-WHO", seed)
     ctx.run("C08.MEMO", "R-ORDER", memo)
